@@ -116,6 +116,28 @@ func cmdRun(args []string) int {
 	}
 	cfg := &sym.RunConfig{Workers: *workers, Tier: *tier, TimeoutS: *tmo, SolverLog: *slog,
 		Deadline: start.Add(time.Duration(*budget) * time.Second), Verbose: *verbose}
+	if mp := os.Getenv("VERIF_MODEL"); mp != "" {
+		var doc sym.ReplayDoc
+		b, err := os.ReadFile(mp)
+		if err == nil {
+			err = json.Unmarshal(b, &doc)
+		}
+		if err != nil {
+			return inconclusive("cannot read VERIF_MODEL: " + err.Error())
+		}
+		sym.FixedModel = sym.Model(doc.Values)
+	}
+	if mp := os.Getenv("VERIF_EVALMODEL"); mp != "" {
+		var doc sym.ReplayDoc
+		b, err := os.ReadFile(mp)
+		if err == nil {
+			err = json.Unmarshal(b, &doc)
+		}
+		if err != nil {
+			return inconclusive("cannot read VERIF_EVALMODEL: " + err.Error())
+		}
+		sym.EvalModel = sym.Model(doc.Values)
+	}
 	if os.Getenv("VERIF_QSITES") != "" {
 		sym.QuerySites = map[string]int{}
 	}
